@@ -168,3 +168,97 @@ def circular_arc_curvature_is_one_over_r(c):
     c.assume(ops.And(ops.ne(p['delta'], 0), ops.eq(p['rx'], p['ry'])))
     k = c.callm(arc, 'curvature', t)
     c.ensures('curvature*r==1', ops.eq(k * p['rx'], 1))
+
+
+# ----------------------------------------------------------------------- Path.curvature
+# With T2t, Path.derivative and joins_smoothly_with entering through call-site contracts
+# (abstract results), the dispatch of Path.curvature: the smoothness test is made exactly when T
+# sits on a joint (t close to 0 or 1, not at the free ends of an open path), it is asked of the
+# two segments that meet THERE in the order (later).joins_smoothly_with(earlier), the result is
+# inf exactly when that test fails, and otherwise the curvature formula of the path's own first
+# and second derivative at T.
+
+@contract('C15', 'path.Path.curvature',
+          params=[{'kinds': kinds, 'k': k, 'closed': cl, 'where': w, '_no_bounded': True}
+                  for kinds in ('LQC',) for k in (0, 1, 2) for cl in (False, True) for w in ('start', 'end', 'inside')], level='per-shape')
+def path_curvature_dispatch(c, kinds, k, closed, where):
+    from contracts.c05 import mkpath
+    from contracts.c14 import mkclosed
+    from pyvc import sym
+    path, segs, pts = mkclosed(c, kinds) if closed else mkpath(c, kinds, continuous=True)
+    if not closed:
+        c.assume(ops.ne(pts[0][0], pts[-1][-1]))
+    n = len(segs)
+    T, t = c.real('T'), c.real('t')
+    band0, band1 = ops.le(ops.absv(t), c.const('1e-8')), ops.le(ops.absv(t - 1), c.const('1e-8') + c.const('1e-5'))
+    if where == 'start':
+        c.assume(band0)
+    elif where == 'end':
+        c.assume(band1)
+    else:
+        c.assume(ops.And(ops.Not(band0), ops.Not(band1), ops.le(0, t), ops.le(t, 1)))
+    c.ip.summaries['path.Path.T2t'] = lambda ip, f, a, kw: (k, t)
+    D = {1: c.cplx('D1'), 2: c.cplx('D2')}
+    c.assume(ops.ne(D[1], 0))
+
+    def derivative(ip, f, a, kw):
+        nn = a[2] if len(a) > 2 else kw.get('n', 1)
+        return D[nn]
+    c.ip.summaries['path.Path.derivative'] = derivative
+    tests = []
+    J = c.bool('joins')
+
+    def jsw(ip, f, a, kw):
+        tests.append((a[0], a[1]))
+        return J
+    for cls in ('Line', 'QuadraticBezier', 'CubicBezier'):
+        c.ip.summaries['path.%s.joins_smoothly_with' % cls] = jsw
+    r = c.callm(path, 'curvature', T)
+    on_joint = (where == 'start' and (k != 0 or closed)) or (where == 'end' and (k != n - 1 or closed))
+    c.ensures('smoothness-is-tested-exactly-on-a-joint', len(tests) == (1 if on_joint else 0))
+    if on_joint and len(tests) == 1:
+        later, earlier = tests[0]
+        ia, ib = [i for i, s in enumerate(segs) if s is later][0], [i for i, s in enumerate(segs) if s is earlier][0]
+        want = ((k - 1) % n, k) if where == 'start' else (k, (k + 1) % n)
+        c.ensures('the-two-segments-meeting-at-T-are-asked:(later).joins_smoothly_with(earlier)', (ib, ia) == want)
+    kappa = ops.absv(ops.cross(D[1], D[2]))
+    speed = ops.absv(D[1])
+    from pyvc import sym as _sym
+    is_inf = (isinstance(r, float) and r == float('inf')) or not c.is_finite(r) or isinstance(r, type(_sym.INF))
+    if is_inf:
+        c.ensures('inf-only-where-the-path-is-not-smooth', on_joint and c.known(ops.Not(J)))
+    else:
+        c.ensures('finite-only-where-the-path-is-smooth', (not on_joint) or c.known(J))
+        c.ensures("curvature*|z'|^3==|x'y''-y'x''|", ops.eq(r * speed * speed * speed, kappa))
+
+
+@contract('C15', 'path.Path.curvature', params=[{'_bounded_only': True}])
+def path_curvature_at_joints_sampled(c):
+    """bounded stand-in: at a smooth joint (bit-identical unit tangents: collinear lines, a line
+    continued by a cubic's first control leg) the curvature is the finite one-sided value, at a
+    corner it is inf; strictly inside a segment it is the segment's curvature"""
+    import svgpathtools.path as sp
+    a = c.cplx('a')
+    # a direction with exactly representable components, so that scaled copies have bit-identical unit tangents
+    d = complex(3, 4) if c.bool('dir') else complex(1, 0)
+    l0, l1 = float(int(abs(c.real('l0')) * 7) % 9 + 1), float(int(abs(c.real('l1')) * 7) % 9 + 1)
+    b = a + l0 * d
+    kind = int(abs(c.real('kind')) * 10) % 3
+    if kind == 0:
+        p = sp.Path(sp.Line(a, b), sp.Line(b, b + l1 * d))
+        want_inf = False
+    elif kind == 1:
+        p = sp.Path(sp.Line(a, b), sp.Line(b, b + l1 * d * 1j))
+        want_inf = True
+    else:
+        p = sp.Path(sp.Line(a, b), sp.CubicBezier(b, b + l1 * d, b + l1 * d * (2 + 1j), b + l1 * d * (3 + 3j)))
+        want_inf = False
+    if kind != 1:
+        c.assume(abs(p[0].unit_tangent(1) - p[1].unit_tangent(0)) == 0)
+    T = p.t2T(0, 1)
+    k = p.curvature(T)
+    c.ensures('inf-exactly-at-a-corner', (k == float('inf')) == want_inf)
+    if kind == 0:
+        c.ensures('zero-on-a-straight-joint', k == 0)
+    Tin = p.t2T(1, 0.5)
+    c.ensures('inside-a-segment-it-is-the-segment-curvature', abs(p.curvature(Tin) - p[1].curvature(0.5)) <= 1e-9 * (1 + abs(p[1].curvature(0.5))))
